@@ -780,11 +780,13 @@ pub fn run(opts: &Opts, out: &mut dyn Write) {
             crc_patterns(&mut ctx, &mut rng, p, &enc, opts.thorough, &mut evals15);
         }
     }
+    let n_userops = userops_oracle(&mut ctx, &mut rng, opts.thorough);
     let errs: Vec<String> = ctx.errs.iter().map(|(k, v)| format!("{}:{}", k, v)).collect();
     let kinds: Vec<String> = ctx.kinds.iter().map(|(k, v)| format!("{}:{}", k, v)).collect();
     let s = format!(
-        "engine=codec cases={} accepted={} rejected={} c15_evals={} viol05={} viol06={} viol15={} errkinds={} okkinds={}",
+        "engine=codec cases={} userop_oracle_cases={} accepted={} rejected={} c15_evals={} viol05={} viol06={} viol15={} errkinds={} okkinds={}",
         cases,
+        n_userops,
         ctx.n_ok,
         ctx.n_err,
         evals15,
@@ -795,4 +797,191 @@ pub fn run(opts: &Opts, out: &mut dyn Write) {
         kinds.join(",")
     );
     stat(ctx.out, &s);
+}
+
+// ---------------------------------------------------------------- user operations & reports (oracle only)
+
+fn gen_userops(rng: &mut Rng) -> Vec<UserOperation> {
+    let mut v = vec![];
+    for &w1 in &WIDTHS {
+        for &w2 in &WIDTHS {
+            let a = gen_id(rng, w1);
+            let b = gen_id(rng, w2);
+            v.push(UserOperation::OriginatingTransactionIDMessage(OriginatingTransactionIDMessage { source_entity_id: a, transaction_sequence_number: b }));
+            v.push(UserOperation::Request(UserRequest::RemoteStatusReport(RemoteStatusReportRequest {
+                source_entity_id: a,
+                transaction_sequence_number: b,
+                report_filename: gen_name(rng),
+            })));
+            v.push(UserOperation::Request(UserRequest::RemoteSuspend(RemoteSuspendRequest { source_entity_id: a, transaction_sequence_number: b })));
+            v.push(UserOperation::Request(UserRequest::RemoteResume(RemoteResumeRequest { source_entity_id: a, transaction_sequence_number: b })));
+            for st in TSTATUS {
+                for flag in [false, true] {
+                    v.push(UserOperation::Response(UserResponse::RemoteStatusReport(RemoteStatusReportResponse {
+                        transaction_status: st,
+                        response_code: flag,
+                        source_entity_id: a,
+                        transaction_sequence_number: b,
+                    })));
+                    v.push(UserOperation::Response(UserResponse::RemoteSuspend(RemoteSuspendResponse {
+                        suspend_indication: flag,
+                        transaction_status: st,
+                        source_entity_id: a,
+                        transaction_sequence_number: b,
+                    })));
+                    v.push(UserOperation::Response(UserResponse::RemoteResume(RemoteResumeResponse {
+                        suspend_indication: flag,
+                        transaction_status: st,
+                        source_entity_id: a,
+                        transaction_sequence_number: b,
+                    })));
+                }
+            }
+        }
+        let a = gen_id(rng, w1);
+        v.push(UserOperation::ProxyOperation(ProxyOperation::ProxyPutRequest(ProxyPutRequest {
+            destination_entity_id: a,
+            source_filename: gen_name(rng),
+            destination_filename: gen_name(rng),
+        })));
+    }
+    for _ in 0..6 {
+        v.push(UserOperation::ProxyOperation(ProxyOperation::ProxyMessageToUser(MessageToUser { message_text: gen_blob(rng, 200) })));
+        let mut rq = gen_request(rng);
+        rq.first_filename = Utf8PathBuf::from("a/b");
+        rq.second_filename = Utf8PathBuf::from("c");
+        v.push(UserOperation::ProxyOperation(ProxyOperation::ProxyFileStoreRequest(rq.clone())));
+        v.push(UserOperation::SFOFileStoreRequest(rq));
+        let rs = gen_response(rng, true);
+        v.push(UserOperation::Response(UserResponse::ProxyFileStore(rs.clone())));
+        v.push(UserOperation::SFOFileStoreResponse(rs));
+        v.push(UserOperation::ProxyOperation(ProxyOperation::ProxyFlowLabel(FlowLabel { value: gen_blob(rng, 200) })));
+        v.push(UserOperation::SFOFlowLabel(FlowLabel { value: gen_blob(rng, 200) }));
+        v.push(UserOperation::SFOMessageToUser(MessageToUser { message_text: gen_blob(rng, 200) }));
+        v.push(UserOperation::Request(UserRequest::DirectoryListing(DirectoryListingRequest { directory_name: gen_name(rng), directory_filename: gen_name(rng) })));
+        for code in [ListingResponseCode::Successful, ListingResponseCode::Unsuccessful] {
+            v.push(UserOperation::Response(UserResponse::DirectoryListing(DirectoryListingResponse {
+                response_code: code,
+                directory_name: gen_name(rng),
+                directory_filename: gen_name(rng),
+            })));
+        }
+    }
+    for hc in [HandlerCode::NoticeOfCancellation, HandlerCode::NoticeOfSuspension, HandlerCode::IgnoreError, HandlerCode::AbandonTransaction] {
+        v.push(UserOperation::ProxyOperation(ProxyOperation::ProxyFaultHandlerOverride(FaultHandlerOverride { fault_handler_code: hc.clone() })));
+        v.push(UserOperation::SFOFaultHandlerOverride(FaultHandlerOverride { fault_handler_code: hc }));
+    }
+    for m in [TransmissionMode::Acknowledged, TransmissionMode::Unacknowledged] {
+        v.push(UserOperation::ProxyOperation(ProxyOperation::ProxyTransmissionMode(m)));
+    }
+    v.push(UserOperation::ProxyOperation(ProxyOperation::ProxyPutCancel));
+    for c in CONDITIONS {
+        for d in [DeliveryCode::Complete, DeliveryCode::Incomplete] {
+            for f in FSTATUS {
+                v.push(UserOperation::Response(UserResponse::ProxyPut(ProxyPutResponse { condition: c, delivery_code: d, file_status: f })));
+            }
+        }
+    }
+    v
+}
+
+/// implementation-level C05/C06 oracle for user operations and status reports
+pub fn userops_oracle(ctx: &mut Ctx, rng: &mut Rng, thorough: bool) -> u64 {
+    use cfdp_core::daemon::Report;
+    use cfdp_core::transaction::{TransactionID, TransactionState};
+    let mut n = 0u64;
+    for op in gen_userops(rng) {
+        n += 1;
+        let r = catch_unwind(AssertUnwindSafe(|| {
+            let enc = op.clone().encode();
+            let len_ok = enc.len() == op.encoded_len() as usize;
+            let dec = UserOperation::decode(&mut &enc[..]);
+            (enc, len_ok, dec)
+        }));
+        match r {
+            Ok((enc, len_ok, dec)) => {
+                if !len_ok {
+                    ctx.viol05 += 1;
+                    oracle(ctx.out, "C05", "userop_len", &format!("encoded_len != bytes produced for {:?} || ops: codec userop {}", op, hex(&enc)));
+                }
+                match dec {
+                    Ok(d) if d == op => {}
+                    Ok(d) => {
+                        ctx.viol05 += 1;
+                        oracle(ctx.out, "C05", "userop_roundtrip", &format!("{:?} decodes as {:?} || ops: codec userop {}", op, d, hex(&enc)));
+                    }
+                    Err(e) => {
+                        ctx.viol05 += 1;
+                        oracle(ctx.out, "C05", "userop_roundtrip", &format!("{:?} is rejected ({}) || ops: codec userop {}", op, err_name(&e), hex(&enc)));
+                    }
+                }
+            }
+            Err(_) => {
+                ctx.viol05 += 1;
+                oracle(ctx.out, "C05", "userop_panic", &format!("encode/decode panicked for {:?}", op));
+            }
+        }
+    }
+    // reports
+    for &w1 in &WIDTHS {
+        for &w2 in &WIDTHS {
+            for st in [TransactionState::Active, TransactionState::Suspended, TransactionState::Terminated] {
+                for ts in TSTATUS {
+                    for c in [Condition::NoError, Condition::CancelReceived, Condition::FilesizeError] {
+                        n += 1;
+                        let rep = Report { id: TransactionID(gen_id(rng, w1), gen_id(rng, w2)), state: st, status: ts, condition: c };
+                        let enc = rep.clone().encode();
+                        match catch_unwind(AssertUnwindSafe(|| Report::decode(&mut &enc[..]))) {
+                            Ok(Ok(d)) if d.id == rep.id && d.state == rep.state && d.status == rep.status && d.condition == rep.condition => {}
+                            other => {
+                                ctx.viol05 += 1;
+                                oracle(ctx.out, "C05", "report_roundtrip", &format!("{:?} decodes as {:?} || ops: codec report {}", rep, other.map(|r| r.map_err(|e| err_name(&e))), hex(&enc)));
+                            }
+                        }
+                    }
+                }
+            }
+        }
+    }
+    // arbitrary bytes behind the "cfdp" identifier: no panic, canonical acceptance
+    let msg_types: Vec<u8> = (0u8..=0x50).collect();
+    let reps = if thorough { 400 } else { 40 };
+    for &t in &msg_types {
+        for _ in 0..reps {
+            n += 1;
+            let mut b = b"cfdp".to_vec();
+            b.push(t);
+            let k = rng.below(24) as usize;
+            let mut tail = rng.bytes(k);
+            if rng.chance(1, 2) && !tail.is_empty() {
+                tail[0] = *rng.pick(&[0u8, 1, 2, 3, 4, 8, 0x11, 0x33, 0x77, 0xff]);
+            }
+            b.extend(tail);
+            MAX_ALLOC.store(0, Ordering::Relaxed);
+            let r = catch_unwind(AssertUnwindSafe(|| UserOperation::decode(&mut &b[..])));
+            let max = MAX_ALLOC.load(Ordering::Relaxed);
+            if max > ALLOC_BOUND {
+                ctx.viol06 += 1;
+                oracle(ctx.out, "C06", "alloc", &format!("allocation of {} bytes decoding a user operation || ops: codec userop {}", max, hex(&b)));
+            }
+            match r {
+                Err(_) => {
+                    ctx.viol06 += 1;
+                    oracle(ctx.out, "C06", "userop_total", &format!("UserOperation::decode panicked || ops: codec userop {}", hex(&b)));
+                }
+                Ok(Ok(op)) => {
+                    let re = catch_unwind(AssertUnwindSafe(|| UserOperation::decode(&mut &op.clone().encode()[..])));
+                    match re {
+                        Ok(Ok(op2)) if op2 == op => {}
+                        other => {
+                            ctx.viol06 += 1;
+                            oracle(ctx.out, "C06", "userop_canonical", &format!("accepted {:?} but its re-encoding decodes as {:?} || ops: codec userop {}", op, other.map(|r| r.map_err(|e| err_name(&e))), hex(&b)));
+                        }
+                    }
+                }
+                Ok(Err(_)) => {}
+            }
+        }
+    }
+    n
 }
